@@ -378,6 +378,15 @@ pub fn run_c16(out: &mut Out, rng: &mut Rng, thorough: bool, only: Option<&str>)
                 payloads.push(p);
             }
         }
+        // forms derived from the canonical text: doubled prefix, one digit more / less
+        {
+            let canon = hex_text_unchecked(v, &good, true);
+            payloads.push([&b"T1"[..], &canon[..]].concat());
+            payloads.push([&b"T1T1"[..], &canon[..]].concat());
+            payloads.push([&b"T1"[..], &canon[2..canon.len() - 2]].concat());
+            payloads.push([&canon[..], &b"0"[..]].concat());
+            payloads.push([&b"T1"[..], &hex_text_unchecked(v, &good, false)[2..]].concat());
+        }
         // fields the strict parser rejects
         for _ in 0..3 {
             let mut b = rng.bytes(n);
